@@ -7,6 +7,7 @@ R17.1  must-consume: every arm of the five attribute-dispatch loops consumes exa
 R17.2  declined members / classes skip their attributes; member pre-skip; position save/restore.
 R17.3  interest table: visitor event -> governing interest flag(s); byte reader == tree replay == flag naming.
 R17.4  replay completeness and payload identity of the accept functions against the tree builder.
+R17.5  replay guards: a replay is conditional only on interest flags, the visitor's choice and the presence of the replayed data itself.
 """
 import json
 import os
@@ -31,14 +32,21 @@ CLAIM = {
             "named after its attribute, `all()`/`none()` of the five *Interests structs set every/no flag, the tree builder declares "
             "`all()`, and a visitor impl of an inhabited type panics in a visit_ method only if its own interests() excludes that event; (R17.4) every field of every tree node and every payload of every ElementValue variant is replayed by "
             "its accept function, every visitor event has a call site in accept, and each replayed payload is read from the very field the "
-            "tree builder stores that payload in.",
+            "tree builder stores that payload in (a helper extracted from an accept function is followed through its call sites, including a "
+            "`visible: bool` parameter); (R17.5) every visitor event, nested accept call and visit_G..finish_G group of the replay functions "
+            "of duke::tree is reached under a condition that - interest flags (R17.3) and the outcome of visitor calls apart - tests nothing "
+            "but the presence (Some / non-empty / enum variant) of the very tree data it delivers and holds whenever that data is present "
+            "(truth table over the classified atoms of all enclosing if / if-let / match-arm / let-else / early-exit / loop-exit conditions), "
+            "and no element-dropping or reordering iterator adaptor stands between a tree collection and its replay loop: a replay can neither "
+            "be skipped nor spuriously opened because of a sibling field.",
     "note": "Not decided: that a parse arm consumes exactly attribute_length bytes on malformed input, the relative ORDER of events (reader "
             "and accept differ by design), label/frame values, equality of the replayed tree with the original (needs value reasoning), "
             "that a present-but-empty annotations attribute is replayed. Trusted: rustc HIR/typeck/const-eval; spec/c17.json and "
             "spec/jvms_tables.json (JVMS ch. 4).",
     "technique": "static analysis: path enumeration of stream effects over typed HIR (must-consume), first-match guard formulas projected "
                  "onto interest flags with option-local dataflow (decision table reader vs accept), place provenance of visitor payloads "
-                 "(tree builder vs accept), ADT field coverage",
+                 "(tree builder vs accept), ADT field coverage, guard-atom classification with truth-table dependence / polarity test "
+                 "(replay guards)",
 }
 
 CR = "duke::class_reader::"
@@ -56,10 +64,12 @@ def run(F, R, tier):
     r17_2(ctx)
     r17_3(ctx)
     r17_4(ctx)
+    r17_5(ctx)
     return ("A6 must-consume by path enumeration of stream effects in the 5 attribute-dispatch loops and the Break arms; layout of the "
             "attribute skipper, member pre-skip and with_pos save/restore; A5 interest table (event -> boolean function of interest flags) "
             "extracted from first-match guard formulas and option-local dataflow, compared reader vs accept vs flag naming; A9c/A4 accept "
-            "replays every tree field / ElementValue payload from the field the tree builder stores it in; oracles: JVMS ch.4 "
+            "replays every tree field / ElementValue payload from the field the tree builder stores it in; replay guards test only the "
+            "presence of what they guard (R17.5); oracles: JVMS ch.4 "
             "(spec/c17.json, spec/jvms_tables.json), sibling code (reader vs accept vs tree builder)")
 
 
@@ -1326,8 +1336,93 @@ def snake(name):
     return re.sub(r"(?<!^)(?=[A-Z])", "_", name).lower()
 
 
+def replay_bodies(duke):
+    """The tree -> visitor replay: the functions of duke::tree named accept*, plus the functions of duke::tree they (transitively)
+    call that take part in it (helpers extracted from an accept function, whatever their name)."""
+    cands = [b for b in duke.bodies if b["path"].startswith("duke::tree::") and b.get("dk") in ("Fn", "AssocFn")]
+    by_key = {b["key"]: b for b in cands}
+    out = [b for b in cands if (b.get("name") or "").startswith("accept")]
+    have = {b["key"] for b in out}
+    work = list(out)
+    while work:
+        b = work.pop()
+        for n in H.walk(b["body"]):
+            if n.get("k") not in ("call", "mcall"):
+                continue
+            c = n.get("callee") or {}
+            for k in (c.get("inst_key"), c.get("key")):
+                g = by_key.get(k)
+                if g is None or g["key"] in have:
+                    continue
+                # a helper takes part in the replay if a visitor passes through it: it calls a visitor method or another replay function
+                if any(x.get("k") in ("call", "mcall") and (((x.get("callee") or {}).get("trait") or "").startswith("duke::visitor::")
+                                                            or (x.get("callee") or {}).get("inst_key") in have or (x.get("callee") or {}).get("key") in have)
+                       for x in H.walk(g["body"])):
+                    have.add(g["key"])
+                    out.append(g)
+                    work.append(g)
+    return out
+
+
+def param_index(b, lid):
+    """Index of the parameter of b that binds local lid, else None."""
+    for i, p in enumerate(b["params"]):
+        if any(x == lid for x, _ in H.pat_bindings(p)):
+            return i
+    return None
+
+
+def call_sites(bodies, b):
+    """[(caller body, call node, argument list aligned with b's parameters)] of the calls of b from other functions in `bodies`."""
+    out = []
+    for h in bodies:
+        if h is b:
+            continue
+        for n in H.walk(h["body"]):
+            if n.get("k") not in ("call", "mcall"):
+                continue
+            c = n.get("callee") or {}
+            if b["key"] not in (c.get("inst_key"), c.get("key")):
+                continue
+            out.append((h, n, ([n["recv"]] if n.get("k") == "mcall" else []) + list(n["args"])))
+    return out
+
+
+def site_bools(bodies, b, args):
+    """Literal bool arguments of a visitor call inside b. An argument that is a bool parameter of b (a helper such as
+    `accept_annotations(v, visible, list)`) takes the literal each caller passes: one (bools {arg index: value}, site) per call site.
+    -> [(bools, site | None)]"""
+    lit = {i: H.const_value(a) for i, a in enumerate(args) if isinstance(H.const_value(a), bool)}
+    par = {}
+    for i, a in enumerate(args):
+        if i in lit or a.get("ty") != "bool":
+            continue
+        l = H.local_of(a)
+        pi = param_index(b, l[0]) if l else None
+        if pi is not None:
+            par[i] = pi
+    if not par:
+        return [(lit, None)]
+    out = []
+    for h, call, cargs in call_sites(bodies, b):
+        bs = dict(lit)
+        ok = True
+        for i, pi in par.items():
+            v = H.const_value(cargs[pi]) if pi < len(cargs) else None
+            if isinstance(v, bool):
+                bs[i] = v
+            else:
+                ok = False
+        if ok:
+            out.append((bs, (h, call, cargs)))
+        else:
+            return [(lit, None)]
+    return out or [(lit, None)]
+
+
 def collect_events(ctx, bodies, level_of_trait):
-    """[(level, key, fn body, call node)] for every visit_* call of the five visitor levels."""
+    """[(level, key, fn body, call node, args, site)] for every visit_* call of the five visitor levels; `site` is the call site of
+    the enclosing helper that fixes a bool argument passed on from a parameter (else None)."""
     out = []
     for b in bodies:
         for n in H.walk(b["body"]):
@@ -1339,9 +1434,10 @@ def collect_events(ctx, bodies, level_of_trait):
             if not lvl or not nm or not nm.startswith("visit_"):
                 continue
             args = n["args"] if n.get("k") == "mcall" else n["args"][1:]
-            bools = [str(H.const_value(a)).lower() for a in args if isinstance(H.const_value(a), bool)]
-            key = "%s:%s%s" % (lvl, nm, "(%s)" % ",".join(bools) if bools else "")
-            out.append((lvl, key, b, n, args))
+            for bs, site in site_bools(bodies, b, args):
+                bools = [str(v).lower() for _i, v in sorted(bs.items())]
+                key = "%s:%s%s" % (lvl, nm, "(%s)" % ",".join(bools) if bools else "")
+                out.append((lvl, key, b, n, args, site))
     return out
 
 
@@ -1370,7 +1466,10 @@ class Side:
             return T_
         return f_or([f_and([self.fm.reach(h["body"], site), self.chain(h, depth + 1, seen + (b["key"],))]) for h, site in sites])
 
-    def gov_formula(self, b, node):
+    def gov_formula(self, b, node, site=None):
+        if site is not None:        # only the call of b that passes this literal
+            h, call = site[0], site[1]
+            return f_and([self.fm.reach(b["body"], node), self.fm.reach(h["body"], call), self.chain(h, 1, (b["key"],))])
         return f_and([self.fm.reach(b["body"], node), self.chain(b)])
 
 
@@ -1392,7 +1491,7 @@ def r17_3(ctx):
     fm = Formulas(ctx)
     rbodies = [b for b in duke.bodies if b["path"].startswith(CR) and b.get("dk") in ("Fn", "AssocFn")
                and not b["path"].startswith((CR + "pool::", CR + "labels::"))]
-    abodies = [b for b in duke.bodies if b["path"].startswith("duke::tree::") and b.get("dk") in ("Fn", "AssocFn") and (b.get("name") or "").startswith("accept")]
+    abodies = replay_bodies(duke)
     if not (R.anchor("R17.3", "functions of duke::class_reader", len(rbodies) >= 5) and R.anchor("R17.3", "accept functions of duke::tree", len(abodies) >= 5)):
         return
     sides = {"reader": Side(ctx, fm, rbodies), "accept": Side(ctx, fm, abodies)}
@@ -1400,8 +1499,8 @@ def r17_3(ctx):
     payload = {}
     sp_of = {}
     for sname, side in sides.items():
-        for lvl, key, b, n, args in collect_events(ctx, side.bodies, level_of_trait):
-            f = side.gov_formula(b, n)
+        for lvl, key, b, n, args, site in collect_events(ctx, side.bodies, level_of_trait):
+            f = side.gov_formula(b, n, site)
             table.setdefault(key, {}).setdefault(sname, []).append(f)
             sp_of.setdefault((key, sname), n["sp"])
             for i, a in enumerate(args):
@@ -1663,9 +1762,24 @@ def find_binding(root, lid):
                 if any(i == lid for i, _ in H.pat_bindings(a["pat"])):
                     return "match", a["pat"], n["scrut"]
         if k == "closure":
-            for cp in n["params"]:
+            for ci, cp in enumerate(n["params"]):
                 if any(i == lid for i, _ in H.pat_bindings(cp)):
-                    return "param", cp, None
+                    return "param", cp, closure_element_source(root, n, ci)
+    return None
+
+
+def closure_element_source(root, clo, ci):
+    """The iterated / optional value whose elements the last parameter of a closure receives (`xs.into_iter().try_for_each(|x| ..)`,
+    `xs.try_fold(v, |v, x| ..)`, `opt.map(|x| ..)`); None for any other closure parameter."""
+    if ci != len(clo["params"]) - 1:
+        return None
+    chain = H.parents_of(root, clo) or []
+    for p in reversed(chain):
+        if p.get("k") in ("ref", "block", "semi"):
+            continue
+        if p.get("k") == "mcall" and any(H.peel(a) is clo for a in p["args"]) and p["name"] in ITER_CONSUMERS + OPTION_RUNS_IF_SOME + ("then",):
+            return p["recv"] if p["name"] != "then" else None
+        return None
     return None
 
 
@@ -2055,7 +2169,7 @@ def r17_4(ctx):
                     "visitor traits has a call site in the accept functions (declared-unimplemented API exempt); (c) each payload argument "
                     "of each visitor call in accept is read from exactly the field (or variant payload) in which the tree builder stores "
                     "that parameter, and each finished sub-visitor is fed from the field the builder's finish_* stores it in")
-    abodies = [b for b in duke.bodies if b["path"].startswith("duke::tree::") and b.get("dk") in ("Fn", "AssocFn") and (b.get("name") or "").startswith("accept")]
+    abodies = replay_bodies(duke)
     if not R.anchor("R17.4", "accept functions of duke::tree", len(abodies) >= 8):
         return
     # ---- (a) field coverage
@@ -2144,11 +2258,11 @@ def r17_4(ctx):
                 continue
             args = n["args"] if n.get("k") == "mcall" else n["args"][1:]
             if nm.startswith("visit"):
-                bools = {i: H.const_value(a) for i, a in enumerate(args) if isinstance(H.const_value(a), bool)}
+              for bools, site in site_bools(abodies, b, args):
                 for i, a in enumerate(args):
                     if i in bools:
                         continue
-                    load = origin(a, root, b)
+                    load = through_call_sites(abodies, b, site, origin(a, root, b), origin)
                     stores = store_places(ctx, st, bm, tr, nm, i)
                     pn = (pnames.get((tr, nm)) or {}).get(i, str(i))
                     key = "payload:%s::%s#%s" % (short(tr), nm, pn)
@@ -2180,11 +2294,11 @@ def r17_4(ctx):
                           and ((x.get("callee") or {}).get("trait") == tr)]
                 feeds, chain_ids = feeding_places(root, b, sub[0], n)
                 for vc in vcalls:
-                    vargs = vc["args"] if vc.get("k") == "mcall" else vc["args"][1:]
-                    # only the visit call that defines this sub-visitor local (or the local it was rebound from)
-                    if not any(defines_local(root, vc, x) for x in chain_ids):
-                        continue
-                    bools = {i: H.const_value(a) for i, a in enumerate(vargs) if isinstance(H.const_value(a), bool)}
+                  vargs = vc["args"] if vc.get("k") == "mcall" else vc["args"][1:]
+                  # only the visit call that defines this sub-visitor local (or the local it was rebound from)
+                  if not any(defines_local(root, vc, x) for x in chain_ids):
+                      continue
+                  for bools, site in site_bools(abodies, b, vargs):
                     key = "group:%s::%s%s" % (short(tr), group, "(%s)" % ",".join(str(v).lower() for _i, v in sorted(bools.items())) if bools else "")
                     want = set()
                     for _fb, places in sub_store_places(ctx, st, bm, tr, group):
@@ -2192,7 +2306,13 @@ def r17_4(ctx):
                     if feeds is None:
                         R.unrecognised("R17.4", key, "cannot tell what feeds the sub-visitor `%s`" % sub[1], sp=n["sp"])
                         continue
-                    got = set(feeds)
+                    got = set()
+                    for fd in feeds:
+                        if isinstance(fd, tuple):     # a parameter of a helper: what the caller passes
+                            r = through_call_sites(abodies, b, site, fd, origin_root)
+                            got.add(r if isinstance(r, str) else "<param>")
+                        else:
+                            got.add(fd)
                     if "<self>" in want or "<param>" in got or not got:
                         # the node itself is the sub-visitor's product (Annotation into Vec<Annotation>): nothing to compare at field level
                         R.inst("R17.4", key, True, sp=n["sp"], nontrivial=False, detail="sub-visitor product is the replayed node itself")
@@ -2324,8 +2444,29 @@ def feeding_places(root, fn, sub_lid, finish_call):
                 o = origin_root(dta, root, fn)
                 if o is None:
                     return None, seen
-                out.append(o if isinstance(o, str) else "<%s>" % o[0])
+                out.append(o if isinstance(o, str) or o[0] == "param" else "<%s>" % o[0])
     return out, seen
+
+
+def through_call_sites(bodies, b, site, load, resolve):
+    """A value that is a parameter of the helper b is what its callers pass: resolved at `site` (or at every call site of b when they
+    all agree); anything else is returned unchanged."""
+    if not load or isinstance(load, str) or load[0] != "param":
+        return load
+    pi = None
+    for i, p in enumerate(b["params"]):
+        if any(nm == load[1] for _x, nm in H.pat_bindings(p)):
+            pi = i
+    sites = [site] if site else call_sites(bodies, b)
+    if pi is None or not sites:
+        return load
+    res = set()
+    for h, _call, cargs in sites:
+        r = resolve(cargs[pi], h["body"], h) if pi < len(cargs) else None
+        res.add(r if isinstance(r, str) else None)
+    if len(res) == 1 and None not in res:
+        return res.pop()
+    return load
 
 
 def is_visitor_local(root, lid):
@@ -2358,3 +2499,612 @@ def wrapper_group(g):
     # the outermost pair: the finish call that is not inside any `if` of the function's replay part and whose visit call is the first event
     cands = [k for k in vs if k in fs and k[1] in MEMBER_GROUPS]
     return cands[0] if len(cands) == 1 else None
+
+
+# ====================================================================================== R17.5 replay guards
+# A replay may be skipped by (a) the visitor's interest flags (their value is decided by R17.3), (b) the visitor declining
+# (ControlFlow::Break / None from a visit_ call), (c) the absence of the very data it would deliver.  Nothing else.
+COLLECTION_TY = ("alloc::vec::Vec<", "[", "alloc::collections::", "std::collections::", "indexmap::", "core::option::Option<",
+                 "alloc::boxed::Box<[")
+OPTION_ADT = "core::option::Option"
+OPTION_RUNS_IF_SOME = ("map", "and_then", "map_or", "is_some_and", "inspect", "filter", "map_or_else", "into_iter", "iter")
+ELEMENT_PRESERVING = ("into_iter", "iter", "iter_mut", "cloned", "copied", "clone", "to_vec", "to_owned", "as_slice", "as_ref", "as_mut",
+                      "by_ref", "into_vec", "into_boxed_slice", "as_deref", "as_deref_mut", "unwrap_or_default", "into_values", "values",
+                      "peekable", "fuse")
+ELEMENT_DROPPING = ("skip", "take", "filter", "step_by", "rev", "skip_while", "take_while", "filter_map", "nth", "last", "first",
+                    "next", "next_back", "pop", "find", "find_map", "dedup", "truncate", "split_off", "split_first", "split_last",
+                    "min", "max", "chunks", "windows", "map_while")
+ITER_CONSUMERS = ("try_fold", "fold", "for_each", "try_for_each", "map", "flat_map", "try_rfold", "rfold")
+
+
+def strip_ref_ty(ty):
+    ty = (ty or "").strip()
+    while ty.startswith("&"):
+        ty = ty[1:].strip()
+        if ty.startswith("mut "):
+            ty = ty[4:].strip()
+        elif ty.startswith("'"):
+            ty = ty.split(" ", 1)[1].strip() if " " in ty else ty
+    return ty
+
+
+def is_collection_ty(ty):
+    return strip_ref_ty(ty).startswith(COLLECTION_TY)
+
+
+def ev5(f, env):
+    k = f[0]
+    if k == "T":
+        return True
+    if k == "F":
+        return False
+    if k == "not":
+        return not ev5(f[1], env)
+    if k == "and":
+        return all(ev5(x, env) for x in f[1])
+    if k == "or":
+        return any(ev5(x, env) for x in f[1])
+    return env[f]
+
+
+def atoms5(f, out):
+    k = f[0]
+    if k in ("T", "F"):
+        return out
+    if k == "not":
+        return atoms5(f[1], out)
+    if k in ("and", "or"):
+        for x in f[1]:
+            atoms5(x, out)
+        return out
+    if f not in out:
+        out.append(f)
+    return out
+
+
+def is_visitor_event_call(e):
+    """visit_* / finish_* / interests() of a visitor trait (not the data conversions of UnknownAttributeVisitor)."""
+    if e.get("k") not in ("call", "mcall"):
+        return False
+    return ((e.get("callee") or {}).get("trait") or "").startswith("duke::visitor::") and \
+        (H.callee_name(e) or "").startswith(("visit", "finish", "interests"))
+
+
+def owner_label(b):
+    it = (b.get("impl_ty") or "").split("<")[0]
+    return "%s::%s" % (short(it), b["name"]) if it else b["name"]
+
+
+class Guards:
+    """Conditions that decide whether a node of one replay function is evaluated, as formulas over classified atoms:
+      ("flag", adt, field)            interest flag                                   (free: R17.3)
+      ("vis", id, variant)            outcome of a visitor call                       (free: the visitor's choice)
+      ("present", place)              the Option at `place` is Some / the collection at `place` is non-empty
+      ("variant", place, adt, name)   the tree enum value at `place` is variant `name`
+      ("value", places, id)           any other test of tree data read from `places`
+      ("opaque", id)                  not understood"""
+
+    def __init__(self, ctx, fn, interest_adts):
+        self.ctx = ctx
+        self.fn = fn
+        self.root = fn["body"]
+        self.interest_adts = interest_adts
+        self.node_of = {}
+
+    # ---- places
+    def pl(self, e):
+        o = origin(e, self.root, self.fn)
+        if isinstance(o, str):
+            return o
+        if o and o[0] == "param":
+            return "<param:%s>" % o[1]
+        ps = self.places_of(e)      # a chain origin() does not follow (`x.into_iter().skip(1)`): unambiguous if one place is involved
+        return next(iter(ps)) if len(ps) == 1 else None
+
+    def places_of(self, e, out=None, depth=0):
+        """Every tree place (`Adt.field`, `Adt::Variant.field`, `<param:x>`) the value of e is read from or through (over-approximation)."""
+        if out is None:
+            out = set()
+        if e is None or depth > 14:
+            return out
+        e = H.peel(e, refs=True, tries=True, casts=True)
+        k = e.get("k")
+        if k == "field":
+            if e.get("adt") not in self.interest_adts:
+                out.add(place(e.get("adt"), None, e["name"]))
+            base = H.local_of(e["e"])
+            if not (base and any(i == base[0] for p in self.fn["params"] for i, _ in H.pat_bindings(p))):
+                self.places_of(e["e"], out, depth + 1)      # `self.f`: the field says it all
+        elif is_visitor_event_call(e):
+            return out      # what a visitor hands back is not tree data
+        elif k == "mcall":
+            self.places_of(e["recv"], out, depth + 1)
+            for a in e["args"]:
+                self.places_of(a, out, depth + 1)
+        elif k == "call":
+            for a in e["args"]:
+                self.places_of(a, out, depth + 1)
+        elif k == "if":
+            self.places_of(e["then"], out, depth + 1)
+            if "else" in e:
+                self.places_of(e["else"], out, depth + 1)
+        elif k == "match":
+            for a in e["arms"]:
+                self.places_of(a["body"], out, depth + 1)
+        elif k == "block":
+            if "tail" in e:
+                self.places_of(e["tail"], out, depth + 1)
+        elif k in ("tuple", "array"):
+            for x in e["es"]:
+                self.places_of(x, out, depth + 1)
+        elif k == "index":
+            self.places_of(e["e"], out, depth + 1)
+        elif k == "struct":
+            for f in e["fields"]:
+                self.places_of(f["e"], out, depth + 1)
+        elif k == "path" and e["res"].get("r") == "local":
+            lid = e["res"]["id"]
+            for p in self.fn["params"]:
+                if any(i == lid for i, _ in H.pat_bindings(p)):
+                    out.add("<param:%s>" % e["res"]["name"])
+                    return out
+            b = find_binding(self.root, lid)
+            if b and not self.is_visitor_value(e):
+                _kind, pat, src = b
+                for st in (pat_steps(pat, lid) or ()):
+                    if st[0] == "variant" and (st[1], st[2]) not in TRANSPARENT_CTORS:
+                        out.add(place(st[1], st[2], st[3]))
+                if src is not None:
+                    self.places_of(src, out, depth + 1)
+        return out
+
+    def region_places(self, nodes):
+        out = set()
+        for s in nodes:
+            for n in H.walk(s):
+                if n.get("k") == "field" or (n.get("k") == "path" and n["res"].get("r") == "local"):
+                    self.places_of(n, out)
+        return out
+
+    # ---- classification of tested values
+    def is_visitor_value(self, e, depth=0):
+        if e is None or depth > 6:
+            return False
+        e = H.peel(e, refs=True, tries=True)
+        if e.get("k") in ("call", "mcall"):
+            return is_visitor_event_call(e)
+        loc = H.local_of(e)
+        if loc:
+            b = find_binding(self.root, loc[0])
+            return bool(b and b[2] is not None and self.is_visitor_value(b[2], depth + 1))
+        return False
+
+    def remember(self, atom, node):
+        self.node_of.setdefault(atom, node)
+        return atom
+
+    def value_atom(self, e):
+        ps = self.places_of(e) if e is not None else set()
+        if ps:
+            return self.remember(("value", frozenset(ps), id(e)), e)
+        return self.remember(("opaque", id(e)), e)
+
+    def presence(self, e, node):
+        """Atom `the Option/collection e holds something`."""
+        if self.is_visitor_value(e):
+            return self.remember(("vis", id(H.peel(e, refs=True, tries=True)), "Some"), node)
+        p = self.pl(e)
+        if p is None or not is_collection_ty(e.get("tya") or e.get("ty")) and not is_collection_ty(H.peel(e, refs=True).get("ty")):
+            return self.value_atom(node)
+        return self.remember(("present", p), node)
+
+    # ---- conditions
+    def cond(self, e, depth=0):
+        if depth > 10:
+            return self.remember(("opaque", id(e)), e)
+        e = H.peel(e, refs=True, derefs=True)
+        k = e.get("k")
+        if k == "bin" and e["op"] == "&&":
+            return f_and([self.cond(e["l"], depth + 1), self.cond(e["r"], depth + 1)])
+        if k == "bin" and e["op"] == "||":
+            return f_or([self.cond(e["l"], depth + 1), self.cond(e["r"], depth + 1)])
+        if k == "un" and e.get("op") == "!":
+            return f_not(self.cond(e["e"], depth + 1))
+        if k == "lit" and isinstance((e.get("lit") or {}).get("v"), bool):
+            return T_ if e["lit"]["v"] else F_
+        if k == "field" and e.get("adt") in self.interest_adts:
+            return self.remember(("flag", e["adt"], e["name"]), e)
+        if k == "bin" and e["op"] in ("==", "!=", "<", "<=", ">", ">="):
+            for a, b, flip in ((e["l"], e["r"], False), (e["r"], e["l"], True)):
+                bv = H.const_value(a)
+                if isinstance(bv, bool) and e["op"] in ("==", "!=") and (b.get("ty") == "bool"):
+                    f = self.cond(b, depth + 1)
+                    return f if (e["op"] == "==") == bv else f_not(f)
+                b0 = H.peel(b, refs=True, casts=True)
+                if isinstance(bv, int) and not isinstance(bv, bool) and b0.get("k") == "mcall" and b0["name"] in ("len", "count"):
+                    # `len OP c` (or `c OP len`): a presence test iff its value only depends on len == 0
+                    import operator
+                    op = {"==": operator.eq, "!=": operator.ne, "<": operator.lt, "<=": operator.le, ">": operator.gt, ">=": operator.ge}[e["op"]]
+                    val = (lambda n: op(bv, n)) if not flip else (lambda n: op(n, bv))
+                    if val(1) == val(10 ** 12):
+                        if val(0) == val(1):
+                            return T_ if val(0) else F_
+                        pa = self.presence(b0["recv"], e)
+                        return pa if val(1) else f_not(pa)
+                    return self.value_atom(e)
+        if k == "letexpr":
+            return self.pat_cond(e["pat"], e["init"], depth + 1)
+        if k == "mcall" and e["name"] in ("is_empty", "is_none"):
+            return f_not(self.presence(e["recv"], e))
+        if k == "mcall" and e["name"] == "is_some":
+            return self.presence(e["recv"], e)
+        if k == "match" and e.get("ty") == "bool":
+            return f_or([f_and([self.arm_cond(e, i, None, depth + 1), self.cond(a["body"], depth + 1)]) for i, a in enumerate(e["arms"])])
+        if k == "if" and "else" in e and e.get("ty") == "bool":
+            c = self.cond(e["cond"], depth + 1)
+            return f_or([f_and([c, self.cond(e["then"], depth + 1)]), f_and([f_not(c), self.cond(e["else"], depth + 1)])])
+        loc = H.local_of(e)
+        if loc and e.get("ty") == "bool":
+            init = H.let_init_of(self.root, loc[0])
+            if init is not None:
+                return self.cond(init, depth + 1)
+            if any(i == loc[0] for p in self.fn["params"] for i, _ in H.pat_bindings(p)):
+                return self.remember(("flag", "<param>", loc[1]), e)      # a bool parameter of a helper: the caller's choice, not tree data
+        return self.value_atom(e)
+
+    def pat_cond(self, pat, scrut, depth=0):
+        p = pat
+        while p.get("k") in ("pref", "pbox", "pderef"):
+            p = p["pat"]
+        k = p.get("k")
+        if k == "wild":
+            return T_
+        if k == "bind":
+            return self.pat_cond(p["sub"], scrut, depth + 1) if "sub" in p else T_
+        if depth > 10:
+            return self.remember(("opaque", id(pat)), pat)
+        if k == "por":
+            return f_or([self.pat_cond(x, scrut, depth + 1) for x in p["pats"]])
+        if k == "ptuple":
+            s0 = H.peel(scrut, refs=True) if scrut is not None else None
+            if s0 is not None and s0.get("k") == "tuple" and len(s0["es"]) == len(p["pats"]):
+                return f_and([self.pat_cond(x, s0["es"][i], depth + 1) for i, x in enumerate(p["pats"])])
+            if scrut is not None and self.is_visitor_value(scrut):
+                return T_
+            return f_and([self.pat_cond(x, None, depth + 1) for x in p["pats"]])
+        v = H.pat_variant(p)
+        if v and v[1]:
+            adt, vn = v
+            if scrut is not None and self.is_visitor_value(scrut):
+                return self.remember(("vis", id(H.peel(scrut, refs=True, tries=True)), vn), pat)
+            subs = p.get("pats") if p.get("k") == "ptuplestruct" else [f["pat"] for f in p.get("fields", [])] if p.get("k") == "pstruct" else []
+            if adt == OPTION_ADT:
+                if scrut is None:
+                    return self.remember(("opaque", id(pat)), pat)
+                pa = self.presence(scrut, scrut)
+                if vn == "Some":
+                    return f_and([pa] + [self.pat_cond(x, None if H.peel(scrut, refs=True).get("k") == "tuple" else scrut, depth + 1) for x in subs])
+                return f_not(pa)
+            if scrut is None:
+                return self.remember(("opaque", id(pat)), pat)
+            if not (adt or "").startswith("duke::tree::"):
+                return self.value_atom(scrut)
+            pl_ = self.pl(scrut)
+            if pl_ is None:
+                return self.value_atom(scrut)
+            at = self.remember(("variant", pl_, adt, vn), pat)
+            return f_and([at] + [self.pat_cond(x, None, depth + 1) for x in subs])
+        if scrut is None:
+            return self.remember(("opaque", id(pat)), pat)
+        return self.value_atom(scrut)
+
+    def arm_cond(self, m, i, target=None, depth=0):
+        fs = []
+        for j in range(i):
+            a = m["arms"][j]
+            fs.append(f_not(f_and([self.pat_cond(a["pat"], m["scrut"], depth), self.cond(a["guard"], depth) if "guard" in a else T_])))
+        a = m["arms"][i]
+        inside_guard = target is not None and "guard" in a and any(x is target for x in H.walk(a["guard"]))
+        fs.append(f_and([self.pat_cond(a["pat"], m["scrut"], depth), T_ if inside_guard or "guard" not in a else self.cond(a["guard"], depth)]))
+        return f_and(fs)
+
+    def reach(self, root, target):
+        fs = []
+        for kind, node, extra in H.path_conditions(root, target):
+            if kind == "if":
+                f = self.cond(node)
+                fs.append(f if extra else f_not(f))
+            elif kind == "after-exit":
+                if not H.is_err_exit(self.exit_block_of(root, node)):
+                    fs.append(f_not(self.cond(node)))
+            elif kind == "iflet":
+                f = self.pat_cond(node["pat"], node["init"])
+                fs.append(f if extra else f_not(f))
+            elif kind == "letelse":
+                if not H.is_err_exit(node.get("els") or {"k": "?"}):
+                    fs.append(self.pat_cond(node["pat"], node.get("init")))
+            elif kind == "arm":
+                fs.append(self.arm_cond(node, extra, target))
+        chain = (H.parents_of(root, target) or []) + [target]
+        for i, p in enumerate(chain[:-1]):
+            if p.get("k") == "mcall" and p["name"] in OPTION_RUNS_IF_SOME and ty_is_option(p["recv"].get("ty")):
+                nxt = chain[i + 1]
+                if H.peel(nxt).get("k") == "closure" and any(a is nxt for a in p["args"]):
+                    if p["name"] == "map_or_else" and p["args"] and p["args"][0] is nxt:
+                        fs.append(f_not(self.presence(p["recv"], p)))
+                    else:
+                        fs.append(self.presence(p["recv"], p))
+            if p.get("k") == "for" and p["body"] is chain[i + 1] and ty_is_option(p.get("iter_ty") or p["iter"].get("ty")):
+                fs.append(self.presence(p["iter"], p))
+        return f_and(fs)
+
+    @staticmethod
+    def exit_block_of(root, cond):
+        for n in H.walk(root):
+            if n.get("k") == "if" and n["cond"] is cond:
+                return n["then"]
+        return {"k": "?"}
+
+    def unit_cond(self, target):
+        """reach(target) plus: inside a loop, no earlier iteration left the loop / the function without an error."""
+        fs = [self.reach(self.root, target)]
+        chain = H.parents_of(self.root, target) or []
+        for li, lp in enumerate(chain):
+            if lp.get("k") not in ("for", "loop"):
+                continue
+            for e, ps in H.walk_with_parents(lp["body"]):
+                if e.get("k") not in ("break", "ret", "continue"):
+                    continue
+                if any(x.get("k") == "closure" for x in ps):
+                    continue
+                if e.get("k") in ("break", "continue") and any(x.get("k") in ("for", "loop") for x in ps):
+                    continue        # belongs to a nested loop
+                if e.get("k") == "ret" and (H.is_err_exit(e) or H.macro_of(e, "desugar:QuestionMark")):
+                    continue        # an error aborts the whole replay: not a skip
+                fs.append(f_not(self.reach(lp["body"], e)))
+        return f_and(fs)
+
+
+def stmt_region_after(root, target, stop_pred):
+    """Statements that follow the statement containing `target` in its nearest enclosing block, up to and including the first one
+    satisfying stop_pred (all remaining ones when none does); None when `target` is not inside a let statement."""
+    chain = (H.parents_of(root, target) or []) + [target]
+    for i in range(len(chain) - 2, -1, -1):
+        p = chain[i]
+        if p.get("k") == "block":
+            s = chain[i + 1]
+            items = p["stmts"] + ([p["tail"]] if "tail" in p else [])
+            idx = next((j for j, x in enumerate(items) if x is s), None)
+            if idx is None:
+                return None
+            out = []
+            for x in items[idx + 1:]:
+                out.append(x)
+                if stop_pred(x):
+                    break
+            return s, out
+    return None
+
+
+def iter_adaptors(e):
+    """Method names applied on the way from a place to the iterated value, and the base expression."""
+    names = []
+    cur = H.peel(e, refs=True, tries=True)
+    while cur.get("k") == "mcall":
+        names.append(cur["name"])
+        cur = H.peel(cur["recv"], refs=True, tries=True)
+    return list(reversed(names)), cur
+
+
+def r17_5(ctx):
+    R = ctx.R
+    duke = ctx.duke
+    R.rule("R17.5", "replay guards: in every function of duke::tree that emits visitor events (the 8+ accept functions and their helpers), "
+                    "each emitted event, each nested accept call and each visit_G..finish_G group is reached under a condition that - apart "
+                    "from interest flags (R17.3) and the outcome of visitor calls (declining) - depends only on the presence (Some / non-empty "
+                    "/ enum variant) of the very tree data that the event, call or group delivers, and is true whenever that data is present; "
+                    "no exit from a replay loop and no element-dropping or reordering iterator adaptor stands between a tree collection and "
+                    "its replay. So a replay cannot be skipped (or spuriously opened) because of a sibling field")
+    interest_adts = set(ctx.spec["interests_adt"].values())
+
+    def emits(b):
+        for n in H.walk(b["body"]):
+            if n.get("k") in ("call", "mcall"):
+                c = n.get("callee") or {}
+                if (c.get("trait") or "").startswith("duke::visitor::") and (H.callee_name(n) or "").startswith("visit"):
+                    return True
+        return False
+    cands = [b for b in duke.bodies if b["path"].startswith("duke::tree::") and b.get("dk") in ("Fn", "AssocFn")]
+    tbodies = [b for b in cands if emits(b)]
+    tbodies += [b for b in replay_bodies(duke) if not any(b is x for x in tbodies)]
+    grown = True
+    while grown:        # helpers that only forward to emitting functions (accept_element_values_unnamed)
+        grown = False
+        have = {b["key"] for b in tbodies}
+        for b in cands:
+            if b["key"] in have:
+                continue
+            if any(n.get("k") in ("call", "mcall") and ((n.get("callee") or {}).get("inst_key") in have or (n.get("callee") or {}).get("key") in have)
+                   for n in H.walk(b["body"])):
+                tbodies.append(b)
+                grown = True
+    if not R.anchor("R17.5", "event-emitting functions of duke::tree", len(tbodies) >= 8):
+        return
+    tkeys = {b["key"] for b in tbodies}
+    n_guarded = 0
+    for b in tbodies:
+        G = Guards(ctx, b, interest_adts)
+        root = b["body"]
+        own = owner_label(b)
+        units = []
+        for n in H.walk(root):
+            if n.get("k") not in ("call", "mcall"):
+                continue
+            c = n.get("callee") or {}
+            nm = H.callee_name(n) or ""
+            tr = c.get("trait") or ""
+            if tr.startswith("duke::visitor::") and nm.startswith("visit"):
+                units.append(("event", n, tr, nm))
+            elif (c.get("inst_key") in tkeys) or (c.get("key") in tkeys):
+                units.append(("nested", n, None, nm))
+        for kind, n, tr, nm in units:
+            args = list(n["args"]) if n.get("k") == "mcall" else list(n["args"][1:] if kind == "event" else n["args"])
+            recv = n.get("recv") if n.get("k") == "mcall" else (n["args"][0] if kind == "event" and n["args"] else None)
+            D = set()
+            if kind == "event":
+                for a in args:
+                    G.places_of(a, D)
+                bools = [str(H.const_value(a)).lower() for a in args if isinstance(H.const_value(a), bool)]
+                label = "%s::%s%s" % (short(tr), nm, "(%s)" % ",".join(bools) if bools else "")
+                group = nm[len("visit_"):] if nm.startswith("visit_") else nm
+
+                def is_finish(s, tr=tr, group=group):
+                    return any(x.get("k") in ("call", "mcall") and (x.get("callee") or {}).get("trait") == tr
+                               and H.callee_name(x) in ("finish_" + group, "finish") for x in H.walk(s))
+                reg = stmt_region_after(root, n, is_finish)
+                if reg is not None:
+                    st, after = reg
+                    opens_group = st.get("k") == "let" and any(is_finish(s) for s in after) and \
+                        any(H.local_of(x) and H.local_of(x)[0] in {i for i, _ in H.pat_bindings(st["pat"])}
+                            for s in after for x in H.walk(s) if x.get("k") == "path")
+                    if opens_group:
+                        D |= G.region_places(after)
+            else:
+                for a in ([recv] if recv is not None else []) + args:
+                    if not G.is_visitor_value(a):
+                        G.places_of(a, D)
+                data = sorted(x for x in D if not x.startswith("<param"))
+                label = "replay(%s)" % ",".join(data or sorted(D) or [nm])
+            f = G.unit_cond(n)
+            ats = atoms5(f, [])
+            key = "guard:%s:%s" % (own, label)
+            if not ats:
+                R.inst("R17.5", key, True, sp=n["sp"], nontrivial=False, detail="unconditional")
+                continue
+            n_guarded += 1
+            verdict_guard(R, G, key, n, f, ats, D)
+        # ---- loops: whole collection, in order
+        for n, parents in H.walk_with_parents(root):
+            it = None
+            if n.get("k") == "for":
+                it, body = n["iter"], n["body"]
+            elif n.get("k") == "mcall" and n["name"] in ITER_CONSUMERS and not ty_is_option(n["recv"].get("ty")):
+                clos = [a for a in n["args"] if H.peel(a).get("k") == "closure"]
+                if clos:
+                    it, body = n["recv"], clos[-1]
+            if it is None:
+                continue
+            if not any(x is u[1] for x in H.walk(body) for u in units):
+                continue
+            names, base = iter_adaptors(it)
+            ps = sorted(x for x in G.places_of(base) if True)
+            pl_ = G.pl(base) or ",".join(ps) or "?"
+            key = "loop:%s:%s" % (own, pl_)
+            bad = [x for x in names if x in ELEMENT_DROPPING]
+            unk = [x for x in names if x not in ELEMENT_DROPPING and x not in ELEMENT_PRESERVING]
+            if bad:
+                R.inst("R17.5", "%s=through(%s)" % (key, ",".join(bad)), False, sp=n["sp"],
+                       detail="the replayed collection passes through an adaptor that drops or reorders elements: items of the tree are "
+                              "not delivered, or not in the order a read reports them")
+            elif unk:
+                R.unrecognised("R17.5", key, "iterator adaptor(s) %s between the tree collection and its replay" % ",".join(unk), sp=n["sp"])
+            else:
+                R.inst("R17.5", key, True, sp=n["sp"], detail="every element of the collection is replayed, in order")
+    R.floor("R17.5", 120)
+
+
+def verdict_guard(R, G, key, n, f, ats, D):
+    """Judge the reach condition f of a replay unit that delivers the places D."""
+    def variant_prefix(a):
+        return "%s::%s." % (short(a[2]), a[3])
+    own_present = [a for a in ats if a[0] == "present" and a[1] in D]
+    own_variant = [a for a in ats if a[0] == "variant" and any(d.startswith(variant_prefix(a)) for d in D)]
+    own_groups = {}
+    for a in own_variant:
+        own_groups.setdefault((a[1], a[2]), []).append(a)
+    sibling = [a for a in ats if a[0] == "variant" and a not in own_variant and (a[1], a[2]) in own_groups]
+    free = [a for a in ats if a[0] in ("flag", "vis")]
+    foreign = []
+    undecided = []
+    for a in ats:
+        if a in free or a in own_present or a in own_variant or a in sibling:
+            continue
+        if a[0] == "present" or a[0] == "variant":
+            foreign.append((a, {a[1]}))
+        elif a[0] == "value":
+            outside = {p for p in a[1] if p not in D}
+            if outside:
+                foreign.append((a, outside))
+            else:
+                undecided.append(a)
+        else:
+            undecided.append(a)
+
+    def depends(a):
+        others = [x for x in ats if x is not a]
+        for bits in range(1 << len(others)):
+            env = {x: bool(bits >> i & 1) for i, x in enumerate(others)}
+            env[a] = True
+            v1 = ev5(f, env)
+            env[a] = False
+            if v1 != ev5(f, env):
+                return True
+        return False
+    if len(ats) > 14:
+        R.unrecognised("R17.5", key, "condition with %d atoms" % len(ats), sp=n["sp"])
+        return
+    shown_d = ",".join(sorted(x for x in D if not x.startswith("<param")) or sorted(D)) or "nothing"
+    bad = [(a, ps) for a, ps in foreign if depends(a)]
+    if bad:
+        tested = sorted({p for _a, ps in bad for p in ps})
+        node = G.node_of.get(bad[0][0]) or n
+        R.inst("R17.5", "%s=tests(%s)/replays(%s)" % (key, ",".join(tested), shown_d), False, sp=node.get("sp") or n["sp"],
+               expect="apart from interest flags and the visitor's own choice, only the presence of " + shown_d + " decides",
+               got="condition `%s` reads %s" % (H.render(node)[:160] if "k" in node and node.get("k") not in ("ptuplestruct", "pstruct", "pexpr") else "pattern", ",".join(tested)),
+               detail="whether this part of the tree is replayed depends on a different part of the tree: a node that has the one but "
+                      "not the other is replayed differently from how its bytes are read")
+        return
+    und = [a for a in undecided if depends(a)]
+    if und:
+        node = G.node_of.get(und[0]) or n
+        R.unrecognised("R17.5", key, "replay depends on a condition that is not a presence test of the replayed data: `%s`"
+                       % (H.render(node)[:160] if node.get("k") not in ("ptuplestruct", "pstruct", "pexpr", "bind", "ptuple") else H.render_pat(node)[:160]), sp=node.get("sp") or n["sp"])
+        return
+    # polarity: with everything it delivers present, the unit runs whenever it can run at all
+    rest = [a for a in ats if a not in free]
+    choices = [[]]
+    for grp in own_groups.values():
+        choices = [c + [g] for c in choices for g in grp]
+    ok = True
+    witness = None
+    for bits in range(1 << len(free)):
+        env = {x: bool(bits >> i & 1) for i, x in enumerate(free)}
+        possible = False
+        for rb in range(1 << len(rest)):
+            env2 = dict(env)
+            env2.update({x: bool(rb >> i & 1) for i, x in enumerate(rest)})
+            if ev5(f, env2):
+                possible = True
+                break
+        if not possible:
+            continue
+        runs = False
+        for ch in choices:
+            env2 = dict(env)
+            for a in rest:
+                env2[a] = False
+            for a in own_present:
+                env2[a] = True
+            for a in ch:
+                env2[a] = True
+            if ev5(f, env2):
+                runs = True
+                break
+        if not runs:
+            ok = False
+            witness = env
+            break
+    R.inst("R17.5", key if ok else "%s=skipped-although-present(%s)" % (key, shown_d), ok, sp=n["sp"],
+           expect="replayed whenever %s is present (interest flags and visitor choice permitting)" % shown_d,
+           got=None if ok else "not reached although the data is present",
+           detail="a guard around a replay may only test whether there is something to replay")
